@@ -234,6 +234,11 @@ func (cs *ContractSet) parseFile(path, pkgPath string) error {
 		if word == "funcs" {
 			// group: the clauses that follow apply to every listed function (one contract each)
 			var keys []string
+			groupAssumed := false
+			if strings.HasSuffix(strings.TrimSpace(rest), " assumed") {
+				groupAssumed = true
+				rest = strings.TrimSuffix(strings.TrimSpace(rest), " assumed")
+			}
 			for _, k := range strings.Split(rest, ",") {
 				if k = strings.TrimSpace(k); k != "" {
 					keys = append(keys, k)
@@ -252,7 +257,7 @@ func (cs *ContractSet) parseFile(path, pkgPath string) error {
 				if _, dup := cs.ByKey[full]; dup {
 					return fmt.Errorf("%s:%d: duplicate contract for %s", path, ln, full)
 				}
-				c := &Contract{Key: full, Pkg: pkgPath, Loops: map[int]*LoopSpec{}, Arith: "int", File: path, Line: ln, Unroll: map[int]int{}}
+				c := &Contract{Key: full, Pkg: pkgPath, Loops: map[int]*LoopSpec{}, Arith: "int", File: path, Line: ln, Unroll: map[int]int{}, Assumed: groupAssumed}
 				cs.ByKey[full] = c
 				cs.Order = append(cs.Order, full)
 				if first {
